@@ -343,7 +343,8 @@ def main(argv=None):
         if expect == "!verify":
             # quantified obligations: the solvers refute by `unknown` rather than `sat`; the mutant must at least stop
             # verifying (a failed or an undecided obligation), which makes the check exit non-zero
-            ok = (bool(failed) or bool(r["undecided"])) and not r["error"] and not r["unsupported"]
+            # (a mutant that leaves the modelled fragment -- `unsupported` -- has also stopped verifying)
+            ok = (bool(failed) or bool(r["undecided"]) or bool(r["unsupported"])) and not r["error"]
         elif expect is None:
             # harmless edit: must not be refuted; an obligation left undecided by the short canary time-out is not an
             # alarm (the edited function is not the one being certified)
